@@ -1,4 +1,5 @@
 import B6.Model.Proto.Pbf
+import B6.Lemmas.ProtoMeasure
 /-! Invariants of the repaired `ReadPBFWithOptions` protocol model (helper lemmas for `Props/C28.lean`). -/
 namespace B6.Model.Proto.Pbf
 open B6.Model.Proto
@@ -231,5 +232,73 @@ theorem inv_step {c : Cfg} {s s' : St} (I : Inv c s) (h : s' ∈ step c s) : Inv
 
 theorem inv_reachable {c : Cfg} {s : St} (h : Reachable (step c) (init c) s) : Inv c s :=
   Reachable.invariant (Inv c) (inv_init c) (fun _ _ I hm => inv_step I hm) s h
+
+/-! ### a measure that every step decreases -/
+
+def wweight (c : Cfg) : W → Nat
+  | .idle => 1
+  | .busy k j => (c.size k - j) + 2
+  | .failing => 1
+  | .exited => 0
+
+def mweight (c : Cfg) : Msg → Nat
+  | .data k => c.size k + 3
+  | .done => 2
+
+def rweight (c : Cfg) : R → Nat
+  | .reading => 3 * c.g + 2
+  | .sending j => 3 * (c.g - j) + 1
+  | .finished => 0
+
+/-- `size k + 4` per blob not yet read, `size k + 3` / 2 per data / done blob in the channel, the callbacks left (+2)
+per busy worker, 1 per worker that has not left, 3 per done-blob the reader still has to offer, 1 for the return -/
+def measure (c : Cfg) (s : St) : Nat :=
+  pending (fun k => c.size k + 4) c.n s.next + (s.queue.map (mweight c)).sum + (s.ws.map (wweight c)).sum
+    + rweight c s.rd + flag s.ret.isSome
+
+theorem measure_step {c : Cfg} {s s' : St} (h : s' ∈ step c s) : measure c s' < measure c s := by
+  obtain ⟨hr, h⟩ := mem_step.mp h
+  rcases h with h | ⟨hfin, ha, rfl⟩ | ⟨i, w, hw, h⟩
+  · rcases mem_readerStep h with ⟨hrd, hn, hq, rfl⟩ | ⟨hrd, hn, hc, rfl⟩ | ⟨hrd, hn, rfl⟩ |
+      ⟨j, hrd, hj, hq, rfl⟩ | ⟨j, hrd, hj, hc, rfl⟩ | ⟨j, hrd, hj, rfl⟩
+    · have hp := pending_succ (fun k => c.size k + 4) hn
+      simp only [measure, List.map_append, List.sum_append, List.map_cons, List.map_nil, List.sum_cons, List.sum_nil, mweight]
+      omega
+    · simp only [measure, hrd, rweight]; omega
+    · simp only [measure, hrd, rweight]; omega
+    · simp only [measure, hrd, rweight, List.map_append, List.sum_append, List.map_cons, List.map_nil, List.sum_cons,
+        List.sum_nil, mweight]
+      omega
+    · simp only [measure, hrd, rweight]; omega
+    · simp only [measure, hrd, rweight]; omega
+  · simp only [measure, hr, flag]; simp
+  · have key : ∀ x : W, ((s.ws.set i x).map (wweight c)).sum + wweight c w = (s.ws.map (wweight c)).sum + wweight c x :=
+      fun x => sum_map_set' (wweight c) s.ws i w x hw
+    rcases mem_workerStep h with ⟨rfl, hcan, rfl⟩ | ⟨rfl, k, q, hq, rfl⟩ | ⟨rfl, q, hq, rfl⟩ |
+      ⟨k, j, rfl, hf, rfl⟩ | ⟨k, j, x, rfl, hf, hx, rfl⟩ | ⟨rfl, rfl⟩
+    · have := key W.exited; simp only [wweight] at this; simp only [measure]; omega
+    · have := key (if c.size k = 0 then W.idle else W.busy k 0)
+      simp only [measure, hq, List.map_cons, List.sum_cons, mweight]
+      by_cases hz : c.size k = 0
+      · simp only [hz, ↓reduceIte, wweight] at this ⊢; omega
+      · simp only [hz, ↓reduceIte, wweight] at this ⊢; omega
+    · have := key W.exited; simp only [wweight] at this
+      simp only [measure, hq, List.map_cons, List.sum_cons, mweight]; omega
+    · have := key W.failing; simp only [wweight] at this; simp only [measure]; omega
+    · have := key x
+      rcases hx with rfl | rfl
+      · -- the next element of the same blob: only taken when j + 1 < size k
+        simp only [wweight] at this; simp only [measure]
+        have hlt : j + 1 < c.size k := by
+          simp only [workerStep, hf] at h
+          by_cases hj : j + 1 < c.size k
+          · exact hj
+          · simp [hj] at h
+            have h2 := congrArg (fun l => l[i]?) h
+            simp only [getElem?_set_self' hw] at h2
+            cases h2
+        omega
+      · simp only [wweight] at this; simp only [measure]; omega
+    · have := key W.exited; simp only [wweight] at this; simp only [measure]; omega
 
 end B6.Model.Proto.Pbf
